@@ -210,30 +210,38 @@ impl FeelType {
   ///
   pub fn coerced(&self, actual_value: &Value) -> Value {
     // conforms to
-    if actual_value.type_of().is_conformant(self) {
+    if self.is_conformant_value(actual_value) {
       return actual_value.clone();
     }
     match self {
       // to singleton list
       FeelType::List(target_type) => {
-        if actual_value.type_of().is_conformant(target_type) {
+        if target_type.is_conformant_value(actual_value) {
           return Value::List(Values::new(vec![actual_value.clone()]));
         }
       }
       // from singleton list
       target_type => {
-        if let FeelType::List(actual_type) = actual_value.type_of() {
-          if actual_type.is_conformant(target_type) {
-            if let Value::List(values) = actual_value {
-              if values.len() == 1 {
-                return values.as_vec()[0].clone();
-              }
-            }
+        if let Value::List(values) = actual_value {
+          if values.len() == 1 && target_type.is_conformant_value(&values.as_vec()[0]) {
+            return values.as_vec()[0].clone();
           }
         }
       }
     }
     value_null!()
+  }
+  /// Returns `true` when the value conforms to this type. Lists and contexts are checked
+  /// item by item and entry by entry, because the type of a list whose items have different
+  /// types (a null item, contexts with different entries) is reported as a list of `Any`.
+  fn is_conformant_value(&self, value: &Value) -> bool {
+    match (self, value) {
+      (FeelType::List(item_type), Value::List(values)) => values.as_vec().iter().all(|item| item_type.is_conformant_value(item)),
+      (FeelType::Context(entries), Value::Context(context)) => entries
+        .iter()
+        .all(|(name, entry_type)| context.get_entry(name).map_or(false, |entry| entry_type.is_conformant_value(entry))),
+      _ => value.type_of().is_conformant(self),
+    }
   }
   ///
   pub fn get_conformant_value(&self, actual_value: &Value) -> Value {
